@@ -6,7 +6,14 @@ Streams (all on the REAL py4hw.logic.simulation.Waveform driven through the REAL
               exhaustive small value sequences and seeded long ones, clear() between runs, clk(0)
   wf-designs  seeded random netlists (gen_designs) with 1-2 Waveforms over random watch lists, optionally inside a
               gated clock domain, random pokes / clk(n) / clear()
-  wf-net      the same designs executed completely in Lean (Net.Sim + generated leaves + recorder leaf)
+  wf-net      the same designs / sessions executed completely in Lean (`Waveform.session`: Net.Sim + generated leaves +
+              Waveform objects), every query answered by the model at the same point of the history
+  wf-process   several recorders per PROCESS with different watch-list layouts (2-4 systems, 1-2 recorders each), each
+              scenario in a fresh process state (forked child of the pristine harness process / re-executed recorder module)
+  QUERIES (getDict() / get_wavedrom(shortNames)) are operations of a history like poke / clk(n) / clear(): they are
+  issued at arbitrary points (exhaustively for short histories, seeded for long ones: render - clear - refill to the
+  same length - render, render twice, both shortNames values, several Waveforms over overlapping watch lists) and each
+  answer is checked against the recorder's content AT THAT MOMENT (theorem C15.session_render_spec).
 Oracle (the property itself, evaluated on the implementation's observable behaviour):
   O1  getDict()[wire of entry] == the values the wire carried going into each edge (snapshots taken through the public
       listener API / before clk, independent of Waveform.clock), one per simulated cycle since the last clear()
@@ -28,7 +35,12 @@ OBLIGATIONS = [
     'C15.clockDrivers_val', 'C15.clkCycle_recorder', 'C15.capture_gated', 'C15.capture_once_per_cycle',
     'C15.capture_clk', 'C15.gated_counterexample', 'C15.withRecorders_isRecorder', 'C15.waveform_end_to_end',
     'C06.wire_values_fit', 'C06.inv_clk',
+    # arbitrary sessions (Props/C15Session.lean)
+    'C15.run_eq', 'C15.capture_clk_gated', 'C15.session_data', 'C15.session_now', 'C15.session_capture',
+    'C15.trace_fit', 'C15.session_render_spec', 'C15.session_dict_spec', 'C15.session_queries_transparent',
+    'C15.session_render_twice', 'C15.trace_cycles_ungated', 'C06.inv_putW', 'C06.inv_propagateAll',
 ]
+PROP_MODULE = 'Py4hwV.Props.C15Session'          # imports Py4hwV.Props.C15
 
 MODEL_MODULES = ['Py4hwV.Drv.Proto', 'Py4hwV.Net.IR', 'Py4hwV.Proto.Waveform', 'Py4hwV.Proto.WaveformNet']
 
@@ -81,10 +93,16 @@ def wire_of(x):
     return x if isinstance(x, py4hw.Wire) else x.wire
 
 
-class Case:
-    """one real system with waveforms; runs ops on the real simulator and keeps what is needed by oracle and model"""
+def ent_token(x, wid):
+    return f"{'w' if x is wire_of(x) else 'p'}:{wid[id(wire_of(x))]}:{x.getFullPath()}:{x.name}"
 
-    def __init__(self, res, stream, sysobj, wires, wfs, label, gate=None):
+
+class Case:
+    """one real system with waveforms; runs a HISTORY of operations on the real simulator / Waveforms
+         ('poke', wire, v) | ('clk', n) | ('clear', i) | ('query', i, short[, driven]) | ('dict', i[, driven])
+       and evaluates the property's oracle at every query, on the recorder's content at that moment"""
+
+    def __init__(self, res, stream, sysobj, wires, wfs, label, decq=None, modelq=None, model_every=True):
         # wfs: list of dict(wf=Waveform, entries=[obj], gate=wire-or-None)
         self.res, self.stream, self.sys, self.wires, self.wfs, self.label = res, stream, sysobj, wires, wfs, label
         self.wid = {id(w): i + 1 for i, w in enumerate(wires)}
@@ -93,6 +111,8 @@ class Case:
         self.sim.addListener(self.lis)
         self.events = [[] for _ in wfs]      # per waveform: ('c', values) | ('x',)
         self.oplog = []
+        self.qlog = []                       # answers of the real objects, one per query, in history order
+        self.decq, self.modelq, self.model_every = decq, modelq, model_every
         self.ok = True
         self.extra = {}
 
@@ -106,6 +126,8 @@ class Case:
 
     def _run(self, ops):
         for op in ops:
+            if not self.ok:
+                return
             if op[0] == 'poke':
                 op[1].put(op[2])
                 self.oplog.append(('poke', self.wid[id(op[1])], op[2]))
@@ -113,6 +135,10 @@ class Case:
                 self.wfs[op[1]]['wf'].clear()
                 self.events[op[1]].append(('x',))
                 self.oplog.append(('clear', op[1]))
+            elif op[0] == 'query':
+                self.query(op[1], bool(op[2]), op[3] if len(op) > 3 else None)
+            elif op[0] == 'dict':
+                self.query(op[1], None, op[2] if len(op) > 2 else None)
             else:
                 n = op[1]
                 self.sim.propagateAll()          # what clk() does first; makes the pre-edge values observable
@@ -140,100 +166,143 @@ class Case:
                 out.append(e[1][self.wid[id(w)] - 1])
         return out
 
-    def replay(self, extra):
+    def replay(self, extra, nops=None):
+        gates = [None if f.get('gate') is None else self.wid[id(f['gate'])] - 1 for f in self.wfs]
+        ops = self.oplog if nops is None else self.oplog[:nops]
         r = dict(stream=self.stream, case=self.label, widths=[w.getWidth() for w in self.wires],
                  watch=[[('w' if x is wire_of(x) else 'p') + str(self.wid[id(wire_of(x))]) for x in f['entries']]
                         for f in self.wfs],
-                 gated=[f.get('gate') is not None for f in self.wfs],
-                 gate=next((self.wid[id(f['gate'])] - 1 for f in self.wfs if f.get('gate') is not None), None),
-                 ops=self.oplog[:200])
+                 gated=[g is not None for g in gates], gates=gates,
+                 gate=next((g for g in gates if g is not None), None),
+                 ops=[list(o) for o in (ops if len(ops) <= 200 else ops[-200:])], ops_truncated=len(ops) > 200)
         r.update(self.extra)
         r.update(extra)
         return r
 
+    def _fail(self, what, extra):
+        self.res.fail(what, self.replay(extra))
+        self.ok = False
 
-def check_case(res, c, decq, modelq, short):
-    """O1-O3 on the real objects + queue the model comparison"""
-    if not c.ok:
-        return
-    for i, f in enumerate(c.wfs):
+    def query(self, i, short, driven=None):
+        """getDict() (and, unless short is None, get_wavedrom(short)) on waveform i NOW: oracles O1-O3 on the answer,
+        the model comparison is queued.  `driven`: optional independent expectation per entry (values poked by the stream)"""
+        if not self.ok:
+            return
+        res = self.res
+        f = self.wfs[i]
         wf, entries = f['wf'], f['entries']
         gated = f.get('gate') is not None
+        self.oplog.append(('dict', i) if short is None else ('query', i, int(short)))
+        nops = len(self.oplog)
         dd = wf.getDict()
         ncyc = None
+        if driven is not None:
+            for j, x in enumerate(entries):
+                got = dd.get(wire_of(x))
+                if got != driven[j]:
+                    self._fail('getDict() differs from the values driven on the watched wire',
+                               dict(oracle='O1-driven', waveform=i, entry=j, expected=driven[j][:40],
+                                    got=None if got is None else got[:40]))
+                    return
         # --- O1: one sample per cycle, equal to the pre-edge value, aliases and duplicates share
         for j, x in enumerate(entries):
             w = wire_of(x)
-            exp = c.expected(i, w)
+            exp = self.expected(i, w)
             ncyc = len(exp)
             got = dd.get(w)
             if got != exp:
                 kind = 'count' if (got is None or len(got) != len(exp)) else 'value'
-                res.fail(f'getDict() of watched wire differs from the values it carried into the '
-                         f"{'enabled ' if gated else ''}edges ({kind})",
-                         c.replay(dict(oracle=('O1g-' if gated else 'O1-') + kind, waveform=i, entry=j, wire=c.wid[id(w)],
-                                       expected=exp[:40], got=None if got is None else got[:40])))
+                self._fail(f'getDict() of watched wire differs from the values it carried into the '
+                           f"{'enabled ' if gated else ''}edges ({kind})",
+                           dict(oracle=('O1g-' if gated else 'O1-') + kind, waveform=i, entry=j, wire=self.wid[id(w)],
+                                expected=exp[:40], got=None if got is None else got[:40]))
                 return
         if len(dd) != len({id(wire_of(x)) for x in entries}):
-            res.fail('getDict() has a different number of keys than distinct watched wires',
-                     c.replay(dict(oracle='O1-keys', waveform=i, keys=len(dd))))
+            self._fail('getDict() has a different number of keys than distinct watched wires',
+                       dict(oracle='O1-keys', waveform=i, keys=len(dd)))
             return
+        rec = dict(pos=nops, i=i, short=short, data=[(k, list(l)) for k, l in dd.items()])
+        self.qlog.append(rec)
+        res.hist('queries', 'getDict' if short is None else ('render-short' if short else 'render-full'))
+        if short is None:
+            return
+        renders = [q for q in self.qlog[:-1] if q['i'] == i and q['short'] is not None]
+        if renders:
+            prev = renders[-1]
+            cleared = any(o[0] == 'clear' and o[1] == i for o in self.oplog[prev['pos']:nops])
+            res.hist('render_history', ('after-clear' if cleared else 'no-clear') +
+                     ('/same-length' if prev['ncyc'] == ncyc else '/other-length') +
+                     ('/same-names' if prev['short'] == short else '/other-names'))
+        rec['ncyc'] = ncyc
         try:
             wd = wf.get_wavedrom(short)
         except Exception as e:
-            res.fail('get_wavedrom() raised on a recorder whose watch list was accepted by the constructor',
-                     c.replay(dict(oracle='O2-raise', waveform=i, err=repr(e)[:120])))
+            self._fail('get_wavedrom() raised on a recorder whose watch list was accepted by the constructor',
+                       dict(oracle='O2-raise', waveform=i, err=repr(e)[:120]))
             return
         sig = wd['signal']
         # --- O3: span
         ok_shape = (len(sig) == len(entries) + 1 and wd['head']['text'] == wf.name and wd['head']['tock'] == 0)
         if not ok_shape:
-            res.fail('get_wavedrom(): wrong number of rows / head', c.replay(dict(oracle='O3-shape', waveform=i, rows=len(sig))))
+            self._fail('get_wavedrom(): wrong number of rows / head', dict(oracle='O3-shape', waveform=i, rows=len(sig)))
             return
         ck = sig[0]['wave']
         if not (sig[0]['name'] == 'clk' and ck == 'P' + '.' * ncyc + 'x'):
-            res.fail('get_wavedrom(): clock row does not span the recorded cycles',
-                     c.replay(dict(oracle='O3-clk', waveform=i, cycles=ncyc, wave=ck)))
+            self._fail('get_wavedrom(): clock row does not span the recorded cycles',
+                       dict(oracle='O3-clk', waveform=i, cycles=ncyc, wave=ck))
             return
         for j, x in enumerate(entries):
             w = wire_of(x)
             row = sig[j + 1]
-            exp = c.expected(i, w)
+            exp = self.expected(i, w)
             name = x.name if short else x.getFullPath()
             if row['name'] != name:
-                res.fail('get_wavedrom(): row name', c.replay(dict(oracle='O3-name', waveform=i, entry=j, got=row['name'], expected=name)))
+                self._fail('get_wavedrom(): row name', dict(oracle='O3-name', waveform=i, entry=j, got=row['name'], expected=name))
                 return
             if len(row['wave']) != len(exp) + 2:
-                res.fail('get_wavedrom(): row does not span exactly the recorded cycles',
-                         c.replay(dict(oracle='O3-span', waveform=i, entry=j, cycles=len(exp), wave=row['wave'], samples=exp[:40])))
+                self._fail('get_wavedrom(): row does not span exactly the recorded cycles',
+                           dict(oracle='O3-span', waveform=i, entry=j, cycles=len(exp), wave=row['wave'], samples=exp[:40]))
                 return
             # --- O2: decode back
             dec = spec_decode(w.getWidth(), row['wave'], row['data'])
             if dec != exp:
-                res.fail('get_wavedrom() row does not decode back to the recorded samples',
-                         c.replay(dict(oracle='O2-decode', waveform=i, entry=j, width=w.getWidth(), wave=row['wave'][:80],
-                                       data=row['data'][:40], samples=exp[:40], decoded=None if dec is None else dec[:40])))
+                self._fail('get_wavedrom() row does not decode back to the samples the recorder holds',
+                           dict(oracle='O2-decode', waveform=i, entry=j, width=w.getWidth(), wave=row['wave'][:80],
+                                data=row['data'][:40], samples=exp[:40], decoded=None if dec is None else dec[:40]))
                 return
-            decq.append((w.getWidth(), row['wave'], row['data'], exp, c, i, j))
+            if self.decq is not None:
+                self.decq.append((w.getWidth(), row['wave'], list(row['data']), exp, self, i, j, nops))
             res.hist('row_width', 'w1' if w.getWidth() == 1 else ('w2-8' if w.getWidth() <= 8 else ('w9-32' if w.getWidth() <= 32 else 'w33+')))
             res.hist('row_kind', 'port' if x is not w else 'wire')
         res.hist('cycles_recorded', ncyc if ncyc < 4 else ('4-15' if ncyc < 16 else '16+'))
         res.hist('watch_has_duplicates', len(dd) != len(entries))
-        # --- model comparison request (stateless): the model gets the observed pre-edge vectors
-        ents = '!'.join(f"{'w' if x is wire_of(x) else 'p'}:{c.wid[id(wire_of(x))]}:{x.getFullPath()}:{x.name}" for x in entries)
+        rec.update(text=wd['head']['text'], clk=ck,
+                   rows='!'.join(f"{r['name']}~{r['wave']}~{','.join(r['data'])}" for r in sig[1:]))
+        if self.modelq is None or not (self.model_every or rec.get('final')):
+            return
+        # --- model comparison request (stateless): the model gets the observed pre-edge vectors of the history so far
+        ents = '!'.join(ent_token(x, self.wid) for x in entries)
         gate = f.get('gate')
         ops = []
-        for e in c.events[i]:
+        for e in self.events[i]:
             if e[0] == 'x':
                 ops.append('x')
-            elif gate is None or e[1][c.wid[id(gate)] - 1] != 0:
+            elif gate is None or e[1][self.wid[id(gate)] - 1] != 0:
                 ops.append(','.join(['0'] + [str(v) for v in e[1]]))
-        line = f"wf | {','.join(['1'] + [str(w.getWidth()) for w in c.wires])} | {ents} | {';'.join(ops)} | {1 if short else 0}"
-        real = dict(uniq=[c.wid[id(w)] for w in wf.uniqueWires],
-                    data=';'.join(f"{c.wid[id(k)]}:{','.join(str(v) for v in l)}" for k, l in dd.items()),
+        line = f"wf | {','.join(['1'] + [str(w.getWidth()) for w in self.wires])} | {ents} | {';'.join(ops)} | {1 if short else 0}"
+        real = dict(uniq=[self.wid[id(w)] for w in wf.uniqueWires],
+                    data=';'.join(f"{self.wid[id(k)]}:{','.join(str(v) for v in l)}" for k, l in dd.items()),
                     fmt=','.join('b' if fm == '' else ('h' if fm == '{:X}' else '?') for fm in wf.format),
-                    clk=ck, rows='!'.join(f"{r['name']}~{r['wave']}~{','.join(r['data'])}" for r in sig[1:]))
-        modelq.append((line, real, c, i))
+                    clk=ck, rows=rec['rows'])
+        self.modelq.append((line, real, self, i, nops))
+
+
+def check_case(res, c, decq, modelq, short):
+    """final query of every waveform of the case (O1-O3 on the real objects + queued model comparison)"""
+    c.decq, c.modelq = decq, modelq
+    c.model_every = True
+    for i in range(len(c.wfs)):
+        c.query(i, short)
 
 
 class Batch:
@@ -280,19 +349,19 @@ def flush_queues(res, decq, modelq):
         res.cov['disagreements_checked'] += 1
     mq = list(modelq)
     decq.clear(); modelq.clear()
-    lines = [f"dec | {ww} | {wave} | {','.join(labels)}" for ww, wave, labels, exp, c, i, j in dq]
+    lines = [f"dec | {t[0]} | {t[1]} | {','.join(t[2])}" for t in dq]
     lines += [m[0] for m in mq]
     BATCH.add(lines, lambda out: _check_answers(res, dq, mq, out))
 
 
 def _check_answers(res, decq, modelq, out):
-    for (ww, wave, labels, exp, c, i, j), o in zip(decq, out):
+    for (ww, wave, labels, exp, c, i, j, nops), o in zip(decq, out):
         want = 'some:' + ','.join(str(v) for v in exp)
         if o.strip() != want:
             res.fail('Lean decodeWave of the real get_wavedrom() row differs from the recorded samples',
                      c.replay(dict(oracle='O2-lean-decode', waveform=i, entry=j, width=ww, wave=wave[:80], data=labels[:40],
-                                   samples=exp[:40], decoded=o[:200])))
-    for (line, real, c, i), o in zip(modelq, out[len(decq):]):
+                                   samples=exp[:40], decoded=o[:200]), nops))
+    for (line, real, c, i, nops), o in zip(modelq, out[len(decq):]):
         f = [x.strip() for x in o.split('|')]
         if f[0] != 'ok' or len(f) != 8:
             res.disagree(c.stream, dict(case=c.label, what='model raises / bad answer', answer=o[:200], request=line[:300]))
@@ -303,7 +372,7 @@ def _check_answers(res, decq, modelq, out):
         for k in want:
             if got[k] != want[k]:
                 res.disagree(c.stream, dict(case=c.label, waveform=i, field=k, python=want[k][:300], lean=got[k][:300],
-                                            replay=c.replay({})))
+                                            replay=c.replay({}, nops)))
                 break
 
 
@@ -312,8 +381,14 @@ ATOM_WIRE = {'w': 'w', 'pi': 'w', 'ba': 'w', 'o': 'o', 'po': 'o', 'br': 'o', 'q'
 
 
 def build_direct(widths, watch, gate=None):
+    s, ins, wires, fs = build_direct_multi(widths, [watch], [gate])
+    return s, ins, wires, fs[0]
+
+
+def build_direct_multi(widths, watches, gates):
     """inputs i<k> of the given widths; channel k is a SUB-BLOCK blk<k> (ports a, r) with an internal wire that is
     called `q` in EVERY block (distinct wires, same short name), Buf b1: i<k> -> q, Buf b2: q -> o<k>.
+    One Waveform per watch list (overlapping lists allowed), Waveform m optionally inside a clock domain gated by input gates[m].
     watch atoms: ('w',k) input wire | ('o',k) output wire | ('q',k) the block's internal wire q |
       ('pi',k) b1 in-port, ('ba',k) block in-port (aliases of i<k>) | ('po',k) b2 out-port, ('br',k) block out-port (aliases of o<k>) |
       ('pq',k) b1 out-port, ('pq2',k) b2 in-port (aliases of blk<k>.q)"""
@@ -337,55 +412,289 @@ def build_direct(widths, watch, gate=None):
     def obj(t, k):
         return {'w': ins[k], 'o': outs[k], 'q': qs[k], 'pi': b1[k].inPorts[0], 'po': b2[k].outPorts[0],
                 'pq': b1[k].outPorts[0], 'pq2': b2[k].inPorts[0], 'ba': blks[k].inPorts[0], 'br': blks[k].outPorts[0]}[t]
-    entries = [obj(t, k) for t, k in watch]
-    parent, gw = s, None
-    if gate is not None:                 # Waveform inside a clock domain gated by input wire `gate`
-        gw = ins[gate]
-        parent = py4hw.Logic(s, 'gated')
-        parent.clockDriver = py4hw.ClockDriver('gclk', base=s.clockDriver, enable=gw)
-    wf = Waveform(parent, 'wf', entries)
-    return s, ins, ins + outs + qs, dict(wf=wf, entries=entries, gate=gw)
+    fs = []
+    for m, (watch, gate) in enumerate(zip(watches, gates)):
+        entries = [obj(t, k) for t, k in watch]
+        parent, gw = s, None
+        sfx = '' if m == 0 else str(m)
+        if gate is not None:                 # Waveform inside a clock domain gated by input wire `gate`
+            gw = ins[gate]
+            parent = py4hw.Logic(s, 'gated' + sfx)
+            parent.clockDriver = py4hw.ClockDriver('gclk' + sfx, base=s.clockDriver, enable=gw)
+        fs.append(dict(wf=Waveform(parent, 'wf' + sfx, entries), entries=entries, gate=gw))
+    return s, ins, ins + outs + qs, fs
 
 
-def direct_case(res, label, widths, watch, seqs, clear_at=(), chunk=1, decq=None, modelq=None, short=False, gate=None):
-    """seqs: list of value tuples (one per input wire) applied before each cycle"""
-    s, ins, wires, f = build_direct(widths, watch, gate)
-    c = Case(res, 'wf-direct', s, wires, [f], label)
+def direct_script(res, label, widths, watches, script, gates=None, decq=None, modelq=None, final_short=(False,),
+                  netq=None, model_every=True, extra=None):
+    """script: history over the bare system
+         ('cyc', vals)  poke every input, one clk(1)   | ('clk0',) clk(0) | ('clear', m) | ('query', m, short) | ('dict', m)
+       followed by a final query of every Waveform for each value in final_short.
+       Independent expectation of this stream (O1-driven): the poked values themselves, tracked per Waveform."""
+    ctx = direct_build(res, label, widths, watches, gates, decq, modelq, netq, model_every, extra)
+    return direct_run(res, ctx, script, final_short)
+
+
+def direct_build(res, label, widths, watches, gates=None, decq=None, modelq=None, netq=None, model_every=True, extra=None):
+    gates = list(gates) if gates else [None] * len(watches)
+    s, ins, wires, fs = build_direct_multi(widths, watches, gates)
+    c = Case(res, 'wf-direct', s, wires, fs, label, decq, modelq, model_every)
     c.extra = dict(nw=len(widths), layout='inputs | outputs | per-block internal wires all named q')
-    if len({wire_of(x).name for x in f['entries']}) < len({id(wire_of(x)) for x in f['entries']}):
-        res.hist('watch_same_name_distinct_wires', 'direct')
-    ops = []
-    for t, vals in enumerate(seqs):
-        if t in clear_at:
-            ops.append(('clear', 0))
-        for k, v in enumerate(vals):
-            ops.append(('poke', ins[k], v))
-        ops.append(('clk', 1))
-    if len(seqs) in clear_at:
-        ops.append(('clear', 0))
-    if chunk == 0:
-        ops.append(('clk', 0))
-    c.run(ops)
-    # independent expectation for this stream: the poked values themselves
-    if c.ok:
-        start = max([t for t in clear_at if t <= len(seqs)], default=0)
-        for j, (t, k) in enumerate(watch):
-            exp = [vals[k] & ((1 << widths[k]) - 1) for vals in seqs[start:]
-                   if gate is None or vals[gate] & ((1 << widths[gate]) - 1) != 0]
-            got = f['wf'].getDict().get(wire_of(f['entries'][j]))
-            if got != exp:
-                res.fail('getDict() differs from the values driven on the watched wire',
-                         c.replay(dict(oracle='O1-driven', entry=j, expected=exp[:40], got=None if got is None else got[:40])))
-                c.ok = False
-                break
-    check_case(res, c, decq, modelq, short)
-    res.count(('direct', tuple(widths), tuple(watch), tuple(seqs), tuple(clear_at), gate),
-              hist={'direct_len': len(seqs) if len(seqs) < 8 else '8+'})
+    c.extra.update(extra or {})
+    for f in fs:
+        if len({wire_of(x).name for x in f['entries']}) < len({id(wire_of(x)) for x in f['entries']}):
+            res.hist('watch_same_name_distinct_wires', 'direct')
+    d = None
+    if netq is not None:
+        try:
+            d = D.Dump(s, c.sim, allow_unknown=True)
+        except D.NotDumpable:
+            d = None
+    return dict(c=c, d=d, ins=ins, widths=widths, watches=watches, gates=gates, netq=netq, model_every=model_every)
+
+
+def direct_run(res, ctx, script, final_short=(False,)):
+    c, d, ins, widths, watches, gates = ctx['c'], ctx['d'], ctx['ins'], ctx['widths'], ctx['watches'], ctx['gates']
+    mask = [(1 << w) - 1 for w in widths]
+    drv = [[[] for _ in widths] for _ in watches]
+
+    def snapshot(m):
+        return [list(drv[m][k]) for t, k in watches[m]]
+    ops, ncyc = [], 0
+    for st in script:
+        if st[0] == 'cyc':
+            for k, v in enumerate(st[1]):
+                ops.append(('poke', ins[k], v))
+            ops.append(('clk', 1))
+            ncyc += 1
+            for m, g in enumerate(gates):
+                if g is None or st[1][g] & mask[g] != 0:
+                    for k, v in enumerate(st[1]):
+                        drv[m][k].append(v & mask[k])
+        elif st[0] == 'clk0':
+            ops.append(('clk', 0))
+        elif st[0] == 'clear':
+            ops.append(('clear', st[1]))
+            drv[st[1]] = [[] for _ in widths]
+        elif st[0] == 'query':
+            ops.append(('query', st[1], st[2], snapshot(st[1])))
+        else:
+            ops.append(('dict', st[1], snapshot(st[1])))
+    nfin = len(final_short) * len(watches)
+    for sh in final_short:
+        for m in range(len(watches)):
+            ops.append(('query', m, sh, snapshot(m)))
+    c.model_every = ctx['model_every']
+    c.run(ops[:len(ops) - nfin])
+    c.model_every = True
+    c.run(ops[len(ops) - nfin:])
+    res.count(('direct', tuple(widths), tuple(tuple(w) for w in watches), tuple(tuple(x) for x in script), tuple(gates),
+               tuple(final_short)),
+              hist={'direct_len': ncyc if ncyc < 8 else '8+', 'direct_waveforms': len(watches)})
+    if d is not None and c.ok and set(d.unknown) <= {'Waveform'}:
+        queue_net(c, d, ctx['netq'])
     return c
 
 
+# ------------------------------------------------------------------------------------------------ wf-process
+def in_fresh_process(fn):
+    """fn() in a forked child of the harness process.  The fork is taken while the parent has not constructed any Waveform /
+    simulator yet, so every child is a process in which the recorders of ONE scenario are the only ones ever created
+    (class-level / module-level state of py4hw is pristine).  Returns fn()'s JSON-able result."""
+    import traceback
+    rd, wr = os.pipe()
+    pid = os.fork()
+    if pid == 0:
+        try:
+            os.close(rd)
+            data = json.dumps(fn(), default=str).encode()
+        except BaseException as e:
+            data = json.dumps({'error': repr(e)[:300], 'tb': traceback.format_exc()[-800:]}).encode()
+        try:
+            with os.fdopen(wr, 'wb') as f:
+                f.write(data)
+        finally:
+            os._exit(0)
+    os.close(wr)
+    with os.fdopen(rd, 'rb') as f:
+        data = f.read()
+    os.waitpid(pid, 0)
+    try:
+        return json.loads(data)
+    except ValueError:
+        return {'error': 'child died without an answer'}
+
+
+def deep_tuple(x):
+    return tuple(deep_tuple(y) for y in x) if isinstance(x, (list, tuple)) else x
+
+
+def fresh_recorder_module():
+    """re-executes py4hw/logic/simulation.py (the file that defines Waveform): class-level and module-level state of the
+    recorder is what it is in a process that has not constructed a recorder yet; build_direct_multi picks the class up from
+    the module at every call"""
+    import importlib
+    import py4hw.logic.simulation as M
+    importlib.reload(M)
+
+
+def process_scenario(res, spec, label, mode='fork'):
+    """spec = dict(order='build-run' | 'build-first', systems=[dict(widths, watches, gates, script, final_short)]): the recorders
+    of all systems are the only ones of a fresh process, constructed in list order; 'build-run' constructs and runs system after
+    system, 'build-first' constructs every system (all recorders exist) before any of them is simulated.  O1-O3 at every query.
+    mode 'fork': a forked child of the still pristine harness process (everything of py4hw is fresh);
+    mode 'reload': in this process after re-executing the recorder's module (cheap: used for the large families)"""
+    def body(cres):
+        ctxs = []
+        for k, sy in enumerate(spec['systems']):
+            ctx = direct_build(cres, label, sy['widths'], [[tuple(a) for a in wl] for wl in sy['watches']], sy.get('gates'),
+                               extra=dict(stream='wf-process', process=spec, member=k, mode=mode))
+            ctx['c'].stream = 'wf-process'
+            if spec['order'] == 'build-run':
+                direct_run(cres, ctx, [deep_tuple(x) for x in sy['script']], tuple(sy.get('final_short', (False,))))
+            ctxs.append(ctx)
+        if spec['order'] != 'build-run':
+            for ctx, sy in zip(ctxs, spec['systems']):
+                direct_run(cres, ctx, [deep_tuple(x) for x in sy['script']], tuple(sy.get('final_short', (False,))))
+    res.hist('process_mode', mode)
+    t_ = time.time()
+    nrec = sum(len(sy['watches']) for sy in spec['systems'])
+    if mode == 'reload':
+        fresh_recorder_module()
+        try:
+            body(res)
+        except Exception as e:
+            res.disagree('wf-process', dict(case=label, what='scenario raised', err=repr(e)[:300]))
+        res.hist('process_recorders', nrec)
+        res.hist('process_order', spec['order'])
+        res.cov['t_process_reload_s'] = round(res.cov.get('t_process_reload_s', 0) + time.time() - t_, 2)
+        return
+
+    def child():
+        cres = Result(res.prop, res.tier, res.seed, res.level)
+        body(cres)
+        return dict(failures=cres.failures, known=[[k, w] for k, w in cres.known_hits], broken=cres.broken,
+                    hist=cres.cov['histograms'], evals=cres.cov['evaluations'])
+    out = in_fresh_process(child)
+    if 'error' in out:
+        res.disagree('wf-process', dict(case=label, what='scenario raised in the child process', err=out['error'], tb=out.get('tb', '')[-300:]))
+        return
+    res.failures += out['failures']
+    res.known_hits += [(k, w) for k, w in out['known']]
+    res.broken += [tuple(b) for b in out['broken']]
+    for k, d in out['hist'].items():
+        for v, n in d.items():
+            res.hist(k, v, n)
+    res.cov['evaluations'] += out['evals']
+    res.count(('process', json.dumps(spec, sort_keys=True, default=str)), hist={'process_recorders': nrec, 'process_order': spec['order']})
+
+
+def layout_of(sy):
+    return tuple(tuple('b' if sy['widths'][k] == 1 else 'h' for t, k in wl) for wl in sy['watches'])
+
+
+def stream_process(res, tier, rng):
+    """several recorders per PROCESS with different watch-list layouts (1-bit / wide at the same watch-list position, other
+    lengths), on separate systems or on one system, each with its own history.  The large families run after a reload of the
+    recorder's module, a seeded selection of them (and the corpus witnesses) additionally in forked fresh processes."""
+    quick = tier == 'quick'
+    import py4hw, py4hw.logic.bitwise, py4hw.logic.simulation          # imported once, in the parent (no object is constructed)
+    seq = [(1, 2), (1, 3), (0, 3), (0, 9), (1, 9)]
+    script = [('cyc', v) for v in seq[:3]] + [('query', 0, False), ('clear', 0)] + [('cyc', v) for v in seq[2:]]
+    specs = []
+    # exhaustive: two recorders (separate systems, 1-bit + 4-bit inputs), every pair of watch lists of length 1..3 (4 thorough)
+    atoms = [('w', 0), ('w', 1)]
+    lists = [list(w) for n in ((1, 2, 3) if quick else (1, 2, 3, 4)) for w in itertools.product(atoms, repeat=n)]
+    for wa in lists:
+        for wb in lists:
+            for order in ('build-run', 'build-first'):
+                specs.append(('ex-process', dict(order=order, systems=[
+                    dict(widths=[1, 4], watches=[wa], gates=[None], script=script, final_short=(False, True)),
+                    dict(widths=[1, 4], watches=[wb], gates=[None], script=script, final_short=(True, False))])))
+    # seeded: 2-4 systems with 1-2 recorders each, random widths / watch lists / phase-structured histories
+    for i in range(150 if quick else 2000):
+        r = rng.fork(('process', i))
+        systems = []
+        for k in range(r.randint(2, 4)):
+            nw = r.randint(1, 3)
+            widths = [r.choice([1, 1, 1, 2, 4, 8, 33]) for _ in range(nw)]
+            nwf = r.choice([1, 1, 2])
+            watches = [[(r.choice(['w', 'o', 'q', 'pi', 'po', 'pq', 'ba', 'br']), r.randint(0, nw - 1)) for _ in range(r.randint(1, 4))]
+                       for _ in range(nwf)]
+            gates = [None] * nwf
+            systems.append(dict(widths=widths, watches=watches, gates=gates, script=phase_script(r, widths, nwf, gates),
+                                final_short=(r.chance(1, 2),)))
+        specs.append((f'process{i}', dict(order=r.choice(['build-run', 'build-first']), systems=systems)))
+    # forked fresh processes FIRST (nothing has been constructed in this process yet): a seeded selection
+    pick = rng.fork('process-fork')
+    different = [x for x in specs if len({layout_of(sy) for sy in x[1]['systems']}) > 1]
+    for label, spec in pick.shuffle(different)[:(6 if quick else 40)]:
+        process_scenario(res, spec, label, 'fork')
+    for label, spec in specs:
+        res.hist('process_layouts', 'same' if len({layout_of(sy) for sy in spec['systems']}) == 1 else 'different')
+        process_scenario(res, spec, label, 'reload')
+    fresh_recorder_module()
+
+
+def direct_case(res, label, widths, watch, seqs, clear_at=(), chunk=1, decq=None, modelq=None, short=False, gate=None):
+    """seqs: list of value tuples (one per input wire) applied before each cycle; clear() before cycle t for t in clear_at"""
+    script = []
+    for t, vals in enumerate(seqs):
+        if t in clear_at:
+            script.append(('clear', 0))
+        script.append(('cyc', tuple(vals)))
+    if len(seqs) in clear_at:
+        script.append(('clear', 0))
+    if chunk == 0:
+        script.append(('clk0',))
+    return direct_script(res, label, widths, [list(watch)], script, [gate], decq, modelq, final_short=(short,))
+
+
+def phase_script(r, widths, nwf, gates):
+    """a history made of RUNS separated by queries and clear()s.  Run lengths coincide often: the recorder is refilled to a
+    length it had at an earlier query (with other values), queried twice in a row, queried with both shortNames values,
+    queried when empty, the Waveforms of one system are cleared / queried independently"""
+    nw = len(widths)
+    script, lens = [], []
+    cur = [0] * nw
+    short = [r.chance(1, 2) for _ in range(nwf)]
+
+    def q(m):
+        if not r.chance(2, 3):
+            short[m] = not short[m]
+        script.append(('query', m, short[m]))
+    for ph in range(r.randint(2, 5)):
+        n = r.choice(lens) if lens and r.chance(1, 2) else r.choice([0, 1, 1, 2, 2, 3, 4, 6, 9])
+        lens.append(n)
+        for t in range(n):
+            for k in range(nw):
+                if r.chance(2, 3):
+                    cur[k] = r.bits(widths[k]) if r.chance(1, 2) else r.randint(0, min((1 << widths[k]) - 1, 3))
+            for g in gates:
+                if g is not None and r.chance(2, 3):
+                    cur[g] = 1
+            script.append(('cyc', tuple(cur)))
+            if r.chance(1, 10):
+                q(r.randint(0, nwf - 1))
+        if n == 0 and r.chance(1, 2):
+            script.append(('clk0',))
+        for m in range(nwf):
+            if r.chance(3, 4):
+                q(m)
+                if r.chance(1, 4):
+                    q(m)
+            elif r.chance(1, 3):
+                script.append(('dict', m))
+        for m in range(nwf):
+            if r.chance(2, 3):
+                script.append(('clear', m))
+        if r.chance(1, 6):
+            q(r.randint(0, nwf - 1))
+    return script
+
+
 def stream_direct(res, tier, rng):
-    decq, modelq = [], []
+    decq, modelq, netq = [], [], []
     quick = tier == 'quick'
     # (a) exhaustive value sequences on one wire, widths 1..3, every run-length pattern included
     for w, L in ((1, 8 if quick else 12), (2, 5 if quick else 6), (3, 3 if quick else 5)):
@@ -412,8 +721,45 @@ def stream_direct(res, tier, rng):
                 direct_case(res, f'ex-gate{ew}', [ew, 4], [('w', 1), ('w', 0)], [(e, t + 1) for t, e in enumerate(en)],
                             decq=decq, modelq=modelq, gate=0)
     flush_queues(res, decq, modelq)
+    # (e) EVERY history of length <= 5 (thorough 6) over {cycle with values A, cycle with values B, clear(), get_wavedrom(False),
+    #     get_wavedrom(True)} on a 1-bit + 2-bit system (wire, wire, port alias), followed by get_wavedrom with both
+    #     shortNames values: queries at every point, render twice, render - clear - refill (same / other length) - render
+    alpha = [('cyc', (1, 1)), ('cyc', (0, 2)), ('clear', 0), ('query', 0, False), ('query', 0, True)]
+    for n in range(0, (5 if quick else 6) + 1):
+        for hist in itertools.product(alpha, repeat=n):
+            if n and hist[-1][0] == 'query':
+                continue                     # the final queries follow anyway: covered by the shorter history
+            direct_script(res, 'ex-hist', [1, 2], [[('w', 0), ('w', 1), ('pi', 1)]], list(hist), decq=decq, modelq=modelq,
+                          final_short=(False, True), model_every=False)
+        flush_queues(res, decq, modelq)
+    # (f) seeded sessions: 1-3 Waveforms over overlapping watch lists of one system, phase-structured histories; each also
+    #     runs completely in Lean (wf-net) with every query answered by the model at the same point
+    n_sess = 350 if quick else 4000
+    for i in range(n_sess):
+        r = rng.fork(('session', i))
+        nw = r.randint(1, 3)
+        widths = [r.choice([1, 1, 2, 3, 4, 8, 9, 16, 33, 64]) for _ in range(nw)]
+        nwf = r.choice([1, 2, 2, 3])
+        base = [(r.choice(['w', 'o', 'q', 'pi', 'po', 'pq', 'pq2', 'ba', 'br']), r.randint(0, nw - 1)) for _ in range(r.randint(1, 3))]
+        watches = []
+        for m in range(nwf):                  # overlapping: every list takes some of the common atoms + own ones
+            wl = [a for a in base if r.chance(2, 3)]
+            wl += [(r.choice(['w', 'o', 'q', 'pi', 'po', 'pq', 'pq2', 'ba', 'br']), r.randint(0, nw - 1)) for _ in range(r.randint(0 if wl else 1, 3))]
+            watches.append(r.shuffle(wl))
+        gates = [(r.randint(0, nw - 1) if r.chance(1, 6) else None) for _ in range(nwf)]
+        script = phase_script(r, widths, nwf, gates)
+        direct_script(res, f'sess{i}', widths, watches, script, gates, decq, modelq,
+                      final_short=((False, True) if r.chance(1, 2) else (r.chance(1, 2),)), netq=netq)
+        if i < 2:
+            res.sample(dict(stream='wf-direct', kind='session', widths=widths, watches=watches, gates=gates, script=script[:12]))
+        if len(modelq) >= 400:
+            flush_queues(res, decq, modelq)
+        if len(netq) >= 150:
+            flush_net(res, netq)
+    flush_queues(res, decq, modelq)
+    flush_net(res, netq)
     # (d) seeded: all widths, long sequences with holds (run-length), boundary values, clears
-    n_rand = 1500 if quick else 50000
+    n_rand = 1500 if quick else 35000
     for i in range(n_rand):
         r = rng.fork(('direct', i))
         nw = r.randint(1, 3)
@@ -441,13 +787,91 @@ def stream_direct(res, tier, rng):
 
 
 # ------------------------------------------------------------------------------------------------ wf-designs / wf-net
+def design_ops(r, ins, nwf):
+    """history on a random netlist: pokes / clk(n) incl. 0 / clear(i) / queries at arbitrary points; half of the time
+    phase-structured (runs whose lengths coincide, separated by query and clear, see phase_script)"""
+    ops = []
+
+    def pokes(k):
+        return [o for o in G.random_ops(r, ins, k) if o[0] == 'poke']
+    if r.chance(1, 2):
+        for o in G.random_ops(r, ins, r.randint(2, 14)):
+            ops.append(o if o[0] == 'poke' else ('clk', r.choice([0, 1, 1, 1, 2, 3, 5])))
+            if r.chance(1, 12):
+                ops.append(('clear', r.randint(0, nwf - 1)))
+            if r.chance(1, 6):
+                ops.append(('query', r.randint(0, nwf - 1), r.chance(1, 2)) if r.chance(3, 4) else ('dict', r.randint(0, nwf - 1)))
+        return ops
+    lens = []
+    short = [r.chance(1, 2) for _ in range(nwf)]
+
+    def q(m):
+        if not r.chance(2, 3):
+            short[m] = not short[m]
+        ops.append(('query', m, short[m]))
+    for ph in range(r.randint(2, 4)):
+        n = r.choice(lens) if lens and r.chance(1, 2) else r.choice([0, 1, 1, 2, 3, 5])
+        lens.append(n)
+        left = n
+        ops.extend(pokes(r.randint(0, 3)))
+        while left > 0:
+            k = r.randint(1, left)
+            ops.append(('clk', k))
+            left -= k
+            ops.extend(pokes(r.randint(0, 2)))
+        if n == 0 and r.chance(1, 2):
+            ops.append(('clk', 0))
+        for m in range(nwf):
+            if r.chance(3, 4):
+                q(m)
+                if r.chance(1, 4):
+                    q(m)
+            elif r.chance(1, 3):
+                ops.append(('dict', m))
+        for m in range(nwf):
+            if r.chance(2, 3):
+                ops.append(('clear', m))
+    return ops
+
+
+def queue_net(c, d, netq):
+    """the history of case c as a `Waveform.session` of the Lean driver: construction of the Waveform objects from their
+    watch lists (wfobj), then the operations literally; every query is answered by the model at the same point"""
+    L = d.lines + d.schedule_lines()
+    want = {}
+    for f in c.wfs:
+        L.append(f"wfobj {d.lid[id(f['wf'])]} | {f['wf'].name} | " + '!'.join(ent_token(x, d.wid) for x in f['entries']))
+        want[len(L) - 1] = ('uniqueWires', 'ok | ' + ','.join(str(d.wid[id(w)]) for w in f['wf'].uniqueWires), 0)
+    L.append('begin')
+    qs = iter(c.qlog)
+    for pos, op in enumerate(c.oplog):
+        if op[0] == 'poke':
+            L.append(f'poke {d.wid[id(c.wires[op[1] - 1])]} {op[2]}')
+        elif op[0] == 'clk':
+            L.append(f'clk {op[1]}')
+        elif op[0] == 'clear':
+            L.append(f'clearwf {op[1]}')
+        else:
+            q = next(qs, None)
+            if q is None or q['pos'] != pos + 1:
+                break                        # a query that failed its oracle has no logged answer: nothing to compare after it
+            L.append(f"getdict {q['i']}")
+            want[len(L) - 1] = ('getDict', ';'.join(f"{d.wid[id(k)]}:{','.join(str(v) for v in l)}" for k, l in q['data']), pos + 1)
+            if q['short'] is not None and 'rows' in q:
+                L.append(f"render {q['i']} {1 if q['short'] else 0}")
+                want[len(L) - 1] = ('get_wavedrom', f"{q['text']} | {q['clk']} | {q['rows']}", pos + 1)
+    L.append('vals')
+    want[len(L) - 1] = ('wire values', ','.join(str(v) for v in d.values()), len(c.oplog))
+    netq.append((L, want, c))
+
+
 def stream_designs(res, tier, rng):
     import py4hw
     import py4hw.logic.storage as S_
     import py4hw.logic.bitwise as B_
     from py4hw.logic.simulation import Waveform
     quick = tier == 'quick'
-    n_designs = 700 if quick else 16000
+    n_designs = 700 if quick else 10000
     decq, modelq, netq = [], [], []
     built = 0
     for i in range(n_designs):
@@ -520,42 +944,23 @@ def stream_designs(res, tier, rng):
             occ = sum(ds.clockables.count(f['wf']) for ds in c.sim.clockDrivers.values())
             if occ != 1 or f['wf'] in c.sim.propagatables:
                 res.disagree('wf-designs', dict(design=i, what='Waveform scheduled != once as clockable / is propagatable', occ=occ))
-        ops = []
-        for o in G.random_ops(r, ins, r.randint(2, 14)):
-            ops.append(o if o[0] == 'poke' else ('clk', r.choice([0, 1, 1, 1, 2, 3, 5])))
-            if r.chance(1, 12):
-                ops.append(('clear', r.randint(0, len(wfs) - 1)))
+        ops = design_ops(r, ins, len(wfs))
         try:
             d = D.Dump(sysobj, c.sim, allow_unknown=True)
         except D.NotDumpable:
             d = None
+        c.decq, c.modelq = decq, modelq
         c.run(ops)
         check_case(res, c, decq, modelq, r.chance(1, 2))
+        if r.chance(1, 2):
+            check_case(res, c, decq, modelq, r.chance(1, 2))         # asked again (same or other shortNames)
         res.count(('design', i), hist={'design_nodes': len(plan['nodes']) // 5 * 5, 'waveforms': len(wfs),
                                        'gated': sum(f['gate'] is not None for f in wfs)})
         if i < 2:
             res.sample(dict(stream='wf-designs', replay=c.replay({})))
-        # --- wf-net: whole simulation in Lean with recorder leaves
+        # --- wf-net: whole session in Lean (Waveform objects as leaves, every query answered at the same point)
         if d is not None and set(d.unknown) <= {'Waveform'} and c.ok:
-            L = d.lines + d.schedule_lines()
-            for f in wfs:
-                L.append(f"recorder {d.lid[id(f['wf'])]} | " + ','.join(str(d.wid[id(w)]) for w in f['wf'].uniqueWires))
-            L.append('begin')
-            for op in c.oplog:
-                if op[0] == 'poke':
-                    L.append(f'poke {d.wid[id(all_w[op[1] - 1])]} {op[2]}')
-                elif op[0] == 'clk':
-                    L.append(f'clk {op[1]}')
-                else:
-                    L.append(f"cleardata {d.lid[id(wfs[op[1]]['wf'])]}")
-            q0 = len(L)
-            want = []
-            for f in wfs:
-                L.append(f"data {d.lid[id(f['wf'])]}")
-                want.append(';'.join(f"{d.wid[id(k)]}:{','.join(str(v) for v in l)}" for k, l in f['wf'].getDict().items()))
-            L.append('vals')
-            want.append(','.join(str(v) for v in d.values()))
-            netq.append((L, q0, want, c))
+            queue_net(c, d, netq)
         if len(modelq) >= 300:
             flush_queues(res, decq, modelq)
         if len(netq) >= 150:
@@ -573,19 +978,22 @@ def flush_net(res, netq):
 
 def _check_net(res, netq, out):
     pos = 0
-    for L, q0, want, c in netq:
+    for L, want, c in netq:
         o = out[pos:pos + len(L)]
         pos += len(L)
-        bad = [x for x in o[:q0] if x.strip() != 'ok']
-        if bad:
-            res.disagree('wf-net', dict(case=c.label, what='session error', answer=bad[0]))
+        bad = [x for k, x in enumerate(o) if k not in want and x.strip() != 'ok']
+        if bad or len(o) != len(L):
+            res.disagree('wf-net', dict(case=c.label, what='session error', answer=(bad or ['short output'])[0]))
             continue
         res.cov['disagreements_checked'] += 1
-        for k, (g, w) in enumerate(zip(o[q0:], want)):
-            if g.strip() != w:
-                res.disagree('wf-net', dict(case=c.label, what='recorder data' if k < len(want) - 1 else 'wire values',
-                                            python=w[:300], lean=g[:300], replay=c.replay({})))
+        for k in sorted(want):
+            what, w, nops = want[k]
+            if o[k].strip() != w.strip():
+                res.disagree('wf-net', dict(case=c.label, what=what, request=L[k], python=w[:300], lean=o[k][:300],
+                                            replay=c.replay({}, nops)))
                 break
+            if what in ('getDict', 'get_wavedrom'):
+                res.hist('wf_net_queries', what)
         res.hist('wf_net', 'compared')
 
 
@@ -602,18 +1010,20 @@ def static_facts(res):
 
 
 def replay_direct(res, r, label, decq, modelq):
-    """re-executes a wf-direct replay dict (as written by Case.replay): widths = inputs then Buf outputs; watch tokens
-    w<i>/p<i> in that numbering; ops literally"""
+    """re-executes a wf-direct replay dict (as written by Case.replay): widths = inputs, Buf outputs, internal wires; watch
+    tokens w<i>/p<i> in that numbering (one list per Waveform); ops literally, queries included"""
     nw = r.get('nw', len(r['widths']) // 2)
     widths = r['widths'][:nw]
 
     def atom(tok):
         k = int(tok[1:]) - 1
         return (('w', 'o', 'q')[k // nw] if tok[0] == 'w' else ('pi', 'po', 'pq')[k // nw], k % nw)
-    watch = [atom(t) for t in r['watch'][0]]
-    gate = r.get('gate')
-    s, ins, wires, f = build_direct(widths, watch, gate)
-    c = Case(res, 'wf-direct', s, wires, [f], label)
+    watches = [[atom(t) for t in wl] for wl in r['watch']]
+    gates = r.get('gates')
+    if gates is None:
+        gates = [r.get('gate')] + [None] * (len(watches) - 1)
+    s, ins, wires, fs = build_direct_multi(widths, watches, gates)
+    c = Case(res, 'wf-direct', s, wires, fs, label, decq, modelq)
     c.extra = dict(nw=nw)
     ops = []
     for o in r['ops']:
@@ -621,8 +1031,12 @@ def replay_direct(res, r, label, decq, modelq):
             ops.append(('poke', wires[o[1] - 1], o[2]))
         elif o[0] == 'clk':
             ops.append(('clk', o[1]))
+        elif o[0] == 'query':
+            ops.append(('query', o[1], bool(o[2])))
+        elif o[0] == 'dict':
+            ops.append(('dict', o[1]))
         else:
-            ops.append(('clear', 0))
+            ops.append(('clear', o[1] if len(o) > 1 else 0))
     c.run(ops)
     check_case(res, c, decq, modelq, bool(r.get('short', False)))
     res.count(('replay', label))
@@ -650,6 +1064,17 @@ def strict_reading_probe(res):
                                                ['poke', 2, 3], ['clk', 1]]))
 
 
+def run_corpus_process(res):
+    cdir = os.path.join(VERIF, 'corpus', 'C15')
+    if not os.path.isdir(cdir):
+        return
+    for fn in sorted(os.listdir(cdir)):
+        if fn.endswith('.json'):
+            j = json.load(open(os.path.join(cdir, fn)))
+            if 'process' in j:
+                process_scenario(res, j['process'], 'corpus:' + fn, 'fork')
+
+
 def run_corpus(res):
     cdir = os.path.join(VERIF, 'corpus', 'C15')
     if not os.path.isdir(cdir):
@@ -658,6 +1083,8 @@ def run_corpus(res):
     for fn in sorted(os.listdir(cdir)):
         if fn.endswith('.json'):
             j = json.load(open(os.path.join(cdir, fn)))
+            if 'process' in j:
+                continue
             if 'ops' in j:
                 replay_direct(res, j, 'corpus:' + fn, decq, modelq)
                 continue
@@ -672,19 +1099,28 @@ def main(res, tier, rng, replay):
         res.broken.append(('translator', 'py2lean', e))
     global BATCH
     BATCH = Batch(res)
+    # wf-process first: its children are forked from a process that has not constructed any recorder yet (and is still small)
+    t1_ = time.time()
+    body = json.load(open(replay)) if replay else {}
+    for k, fi in enumerate(body.get('failing_inputs', [])):
+        if fi.get('replay', {}).get('stream') == 'wf-process':
+            process_scenario(res, fi['replay']['process'], f'replay{k}', 'fork')
+            process_scenario(res, fi['replay']['process'], f'replay{k}', 'reload')
+    run_corpus_process(res)
+    stream_process(res, tier, rng.fork('process'))
+    res.cov['t_process_s'] = round(time.time() - t1_, 1)
     t0 = time.time()
     okm, outm = lean_build(MODEL_MODULES)
     if not okm:
         res.broken.append(('proof', 'model', 'model modules do not build: ' + ' // '.join(
             [l for l in outm.split('\n') if 'error' in l][:5])))
-    res.proof_stage('Py4hwV.Props.C15', OBLIGATIONS)
+    res.proof_stage(PROP_MODULE, OBLIGATIONS)
     res.cov['t_proof_stage_s'] = round(time.time() - t0, 1)
     static_facts(res)
     strict_reading_probe(res)
     run_corpus(res)
     if replay:
         decq, modelq = [], []
-        body = json.load(open(replay))
         for k, fi in enumerate(body.get('failing_inputs', [])):
             if fi.get('replay', {}).get('stream') == 'wf-direct':
                 replay_direct(res, fi['replay'], f'replay{k}', decq, modelq)
@@ -706,7 +1142,11 @@ def main(res, tier, rng, replay):
                        'Waveforms over random watch lists (wires, leaf ports, duplicates), a quarter inside a gated clock domain, random '
                        'pokes/clk(n)/clear(). Oracles O1-O3 evaluated on getDict()/get_wavedrom(); the Lean decoder is applied to every '
                        'real row; model (init/clock/clear/getDict/getWavedrom) compared field by field; wf-net: complete Lean simulation '
-                       'with recorder leaves vs getDict(). distinct = distinct (widths, watch list, value sequence) / design.')
+                       'with Waveform objects (Waveform.session) vs getDict()/get_wavedrom() at every query. Queries are operations of '
+                       'the histories: every history of length<=5 (thorough 6) over {cycle A, cycle B, clear, render False, render True}; '
+                       'seeded sessions with 1-3 Waveforms over overlapping watch lists and coinciding run lengths; wf-process: several '
+                       'recorders per fresh process with different watch-list layouts (exhaustive pairs of watch lists of length<=3, '
+                       'thorough 4, + seeded). distinct = distinct (widths, watch lists, history) / design / process scenario.')
     res.assumptions += [
         'FieldInspector / ValueFormatter watch entries are outside C15 and not modelled',
         'a Waveform inside a gated clock domain samples only in cycles where its enable is non-zero (model: capture_gated); '
@@ -714,6 +1154,8 @@ def main(res, tier, rng, replay):
         'pre-edge values are observed through Simulator.propagateAll() + the listener API (post-edge propagate of cycle t = '
         'values going into edge t+1); no library clock() method calls put() (checked by ast scan in notes, C05 model assumption)',
         'Waveform(parent, name, single_wire) raises TypeError (len() of a Wire) before any capture: only list arguments are modelled',
+        'wf-process: a fresh process is a forked child of the harness process taken before any recorder/simulator was constructed '
+        '(py4hw imported, nothing built), or - for the large families - this process after importlib.reload of py4hw.logic.simulation',
     ]
 
 
